@@ -1,25 +1,48 @@
 import FH.Driver.Rules
+import FH.Driver.World
 open FH FH.Driver
 
-def handleLine (line : String) : String :=
+inductive DState where
+  | none
+  | x64 (s : WState archX64)
+  | a64 (s : WState archA64)
+
+def handleLine (st : DState) (line : String) : DState × String :=
   match (line.trimAscii.toString.splitOn " ") with
   | cmd :: id :: rest =>
     let fs := fields rest
-    let ans :=
-      if cmd == "rule" then handleRule fs
-      else none
-    match ans with
-    | some a => id ++ " " ++ a
-    | none => id ++ " bad-case"
-  | _ => "? bad-line"
+    if cmd == "rule" then
+      match handleRule fs with
+      | some a => (st, id ++ " " ++ a)
+      | none => (st, id ++ " bad-case")
+    else if cmd == "init" then
+      match lookup fs "arch", (lookup fs "n").bind parseHex, (lookup fs "c0").bind parseHex with
+      | some arch, some n, some c0 =>
+        if arch == "x64" then (.x64 { n := n, counter := c0, mods := [], unws := [], caches := [] }, id ++ " ok")
+        else if arch == "a64" then (.a64 { n := n, counter := c0, mods := [], unws := [], caches := [] }, id ++ " ok")
+        else (st, id ++ " bad-case")
+      | _, _, _ => (st, id ++ " bad-case")
+    else
+      match st with
+      | .x64 s =>
+        match handleWorld archX64 ioX64 s cmd fs with
+        | some (s', a) => (.x64 s', id ++ " " ++ a)
+        | none => (st, id ++ " bad-case")
+      | .a64 s =>
+        match handleWorld archA64 ioA64 s cmd fs with
+        | some (s', a) => (.a64 s', id ++ " " ++ a)
+        | none => (st, id ++ " bad-case")
+      | .none => (st, id ++ " bad-case")
+  | _ => (st, "? bad-line")
 
-partial def loop (hin : IO.FS.Stream) (hout : IO.FS.Stream) : IO Unit := do
+partial def loop (hin : IO.FS.Stream) (hout : IO.FS.Stream) (st : DState) : IO Unit := do
   let line ← hin.getLine
   if line.isEmpty then
     hout.flush
     return ()
-  hout.putStrLn (handleLine line)
-  loop hin hout
+  let (st', ans) := handleLine st line
+  hout.putStrLn ans
+  loop hin hout st'
 
 def main : IO Unit := do
-  loop (← IO.getStdin) (← IO.getStdout)
+  loop (← IO.getStdin) (← IO.getStdout) .none
